@@ -1,6 +1,6 @@
-CONSTANTS Widths = {0, 5}
-          Precs = {99, 0, 5}
-          Ws = {1, 8}
+CONSTANTS Widths = {0, 1, 5}
+          Precs = {99, 0, 1, 5}
+          Ws = {1, 2, 4, 8}
           Convs = {100, 117, 111, 120, 88}
           ArgBytes = {0, 255}
 SPECIFICATION Spec
